@@ -715,6 +715,10 @@ fn decompress_ext_hdr<'d>(
 ) -> Result<(&'d mut [u8], &'d [u8])> {
     let ext_hdr = SixlowpanExtHeaderPacket::new_checked(data)?;
     let ext_repr = SixlowpanExtHeaderRepr::parse(&ext_hdr)?;
+    // The length field must not point past the end of the received data.
+    if ext_repr.buffer_len() + ext_repr.length as usize > data.len() {
+        return Err(Error);
+    }
     let nh = decompress_next_header(
         ext_repr.next_header,
         &data[ext_repr.length as usize + ext_repr.buffer_len()..],
